@@ -326,10 +326,11 @@ def finish(pid, tier, seed, mod, results, problems, nshards, t0, kn):
         if got < minimum:
             starved.append(f'{name}: observed {got} < floor {minimum}')
 
-    os.makedirs(os.path.join(env.VERIF, 'replays'), exist_ok=True)
+    rpdir = os.environ.get('HPLMON_REPLAY_DIR') or os.path.join(env.VERIF, 'replays')
+    os.makedirs(rpdir, exist_ok=True)
     replay_paths = []
     for n, v in enumerate(violations):
-        path = os.path.join(env.VERIF, 'replays', f'{pid}-{tier}-seed{seed}-{n}.json')
+        path = os.path.join(rpdir, f'{pid}-{tier}-seed{seed}-{n}.json')
         with open(path, 'w') as f:
             json.dump({'property': pid, 'tier': tier, 'seed': seed, **v}, f, indent=1)
         replay_paths.append(path)
@@ -379,8 +380,11 @@ def finish(pid, tier, seed, mod, results, problems, nshards, t0, kn):
         'wall_s': wall,
         'violations': len(violations) + dropped,
     }
-    os.makedirs(os.path.join(env.VERIF, 'evidence'), exist_ok=True)
-    with open(os.path.join(env.VERIF, 'evidence', f'{pid}.json'), 'w') as f:
+    # side runs against scratch trees (self-validation) redirect their evidence so that the files of the real
+    # tree are not overwritten
+    evdir = os.environ.get('HPLMON_EVIDENCE_DIR') or os.path.join(env.VERIF, 'evidence')
+    os.makedirs(evdir, exist_ok=True)
+    with open(os.path.join(evdir, f'{pid}.json'), 'w') as f:
         json.dump(evidence, f, indent=1, sort_keys=False)
         f.write('\n')
 
